@@ -95,18 +95,32 @@ def _on_alarm(signum, frame):
 
 
 _TIMEOUTS_SEEN = [0]
+_CUR_LEN = [0]            # length of the input being evaluated (set by run_family)
+SHORT = 64                # inputs up to this length are 'tiny'
+ABANDON_AFTER = 12        # time-outs seen by one worker before it stops evaluating inputs
+MEM_LIMIT = 6 << 30       # address-space cap of a worker (a dispatch loop that never advances
+                          # appends to its parse buffer for as long as it is allowed to run)
+
+
+def budget():
+    """LIMIT_S; once this worker has seen 3 genuine time-outs the tiny inputs (<= SHORT characters: the
+    alphabet enumerations, most handcrafted inputs) get 1 s and the others 3 s, so that a non-terminating
+    change is reported in minutes, not hours.  The first three time-outs of every worker are always
+    judged against the full budget of the property."""
+    if _TIMEOUTS_SEEN[0] < 3:
+        return LIMIT_S
+    return 1.0 if _CUR_LEN[0] <= SHORT else 3.0
 
 
 def guarded(fn, *a):
-    """-> ('ok', value) | ('exc', exception, traceback) | ('timeout',)
-    The budget is LIMIT_S; once this worker has seen 3 genuine timeouts the remaining (tiny)
-    inputs get 1 s each, so that a non-terminating change is reported in minutes, not hours."""
-    signal.setitimer(signal.ITIMER_REAL, LIMIT_S if _TIMEOUTS_SEEN[0] < 3 else 1.0)
+    """-> ('ok', value) | ('exc', exception, traceback) | ('timeout', seconds allowed)"""
+    b = budget()
+    signal.setitimer(signal.ITIMER_REAL, b)
     try:
         return ('ok', fn(*a))
     except _Timeout:
         _TIMEOUTS_SEEN[0] += 1
-        return ('timeout',)
+        return ('timeout', b)
     except BaseException as e:  # noqa
         if isinstance(e, (KeyboardInterrupt, SystemExit)) and not isinstance(e, _Timeout):
             signal.setitimer(signal.ITIMER_REAL, 0)
@@ -114,6 +128,16 @@ def guarded(fn, *a):
         return ('exc', e, e.__traceback__)
     finally:
         signal.setitimer(signal.ITIMER_REAL, 0)
+
+
+def cap_memory():
+    try:
+        import resource
+        soft, hard = resource.getrlimit(resource.RLIMIT_AS)
+        if soft == resource.RLIM_INFINITY or soft > MEM_LIMIT:
+            resource.setrlimit(resource.RLIMIT_AS, (MEM_LIMIT, hard))
+    except Exception:  # noqa -- a platform without RLIMIT_AS: run unprotected
+        pass
 
 
 def reset_globals():
@@ -148,17 +172,24 @@ def nesting_bound(x):
 
 
 def tree_depth(tok, d=0):
-    ch = tok.children
-    if not ch:
-        return d
-    return max(tree_depth(c, d + 1) for c in ch)
+    """Iterative (the harness must not hit the recursion limit on a tree the renderer gave up on)."""
+    best, stack = d, [(tok, d)]
+    while stack:
+        t, k = stack.pop()
+        if k > best:
+            best = k
+        for c in getattr(t, 'children', None) or ():
+            stack.append((c, k + 1))
+    return best
 
 
 def inline_codes(tok, acc):
-    if type(tok).__name__ == 'InlineCode':
-        acc.append(tok.children[0].content)
-    for c in tok.children or ():
-        inline_codes(c, acc)
+    stack = [tok]
+    while stack:
+        t = stack.pop()
+        if type(t).__name__ == 'InlineCode':
+            acc.append(t.children[0].content)
+        stack.extend(getattr(t, 'children', None) or ())
     return acc
 
 
@@ -242,11 +273,12 @@ def run_family(idxs, items, seed, stats, fails, is_first):
     rs = g[1]
     try:
         for idx, x in items:
-            if _TIMEOUTS_SEEN[0] >= 12:
-                # non-termination is established (12 inputs timed out in this worker): the remaining
-                # inputs of the task are not run -- the violation is reported, the run must end
+            if _TIMEOUTS_SEEN[0] >= ABANDON_AFTER:
+                # non-termination is established (ABANDON_AFTER evaluations timed out in this worker): the
+                # remaining inputs of the task are not run -- the violation is reported, the run must end
                 stats['skipped_after_timeouts'] = stats.get('skipped_after_timeouts', 0) + 1
                 continue
+            _CUR_LEN[0] = len(x)
             forms = ('str', 'lines', 'file') if idx % 10 == seed % 10 else ('str',)
             if is_first:
                 stats['evaluations'] += 1
@@ -300,20 +332,28 @@ def run_family(idxs, items, seed, stats, fails, is_first):
 def record(fails, cfg, form, x, g, phase, only_reused=False):
     name, path, opts = cfg
     o = optstr(opts) + ('' if form == 'str' else (',' if opts else '') + 'form=' + form)
+    contract = 'c01'
     if g[0] == 'timeout':
-        observed, klass = 'no result within %d s' % LIMIT_S, 'timeout-' + phase
+        # the clause 'terminates': no result within the wall-clock budget.  g[1] is the time allowed: LIMIT_S,
+        # or the reduced budget of a worker that had already seen 3 time-outs at LIMIT_S (see budget())
+        contract = 'terminates'
+        observed, klass = 'no result within %g s' % g[1], 'timeout-' + phase
     elif g[0] == 'type':
         observed, klass = 'render returned %s' % g[1], 'not-a-str'
     else:
         e, tb = g[1], g[2]
         observed = '%s: %s' % (type(e).__name__, str(e)[:120])
         klass = '%s-in-%s' % (type(e).__name__, innermost(tb))
+        if isinstance(e, MemoryError):
+            # more than MEM_LIMIT of memory for an input of a few KB: unbounded growth, i.e. the same
+            # clause as a time-out (a loop that does not advance), seen through the address-space cap
+            contract, klass = 'terminates', 'memory-exhausted-' + phase
     if only_reused:
         klass = 'only-with-reused-renderer/' + klass
     ctor = '%s(%s)' % (path.rsplit('.', 1)[1], ', '.join('%s=%r' % kv for kv in sorted(opts.items())))
     arg = {'str': 'x', 'lines': 'x.splitlines(keepends=True)', 'file': 'io.StringIO(x)'}[form]
     fails.append({
-        'key': 'c01|%s|%s|%r' % (name, o, x), 'contract': 'c01', 'class': klass, 'phase': phase,
+        'key': '%s|%s|%s|%r' % (contract, name, o, x), 'contract': contract, 'class': klass, 'phase': phase,
         'input': x, 'renderer': name, 'options': dict(opts, **({} if form == 'str' else {'form': form})),
         'observed': observed, 'expected': 'a str, no exception, < %d s' % LIMIT_S,
         'replay': 'import io, mistletoe; from %s import %s; x=%r\nwith %s as r: print(r.render(mistletoe.Document(%s)))'
@@ -398,13 +438,144 @@ def emphasis_strings():
            [''.join(t) for k in range(8) for t in itertools.product('*_a ', repeat=k)]
 
 
-def fixed_inputs():
-    out, seen = [], set()
-    for x in nasty() + [e['markdown'] for e in spec_examples()] + emphasis_strings():
-        if x not in seen:
-            seen.add(x)
-            out.append(x)
+# ---- pump inputs (termination under pathological but small inputs) -----------------------------------
+# ctx + u * n + tail: a unit u repeated n times, after a context that makes the construct reachable and
+# before a short tail that makes the match fail late.  A regular expression with exponential backtracking
+# blows up at 25-40 repetitions, a quadratic loop at a few thousand; every input is <= MAX_PUMP characters.
+MAX_PUMP = 3500
+PUMP_CHARS = list("*_`[]()<>!#-+=.:\\\"'&|~$1{}/?%@;,^") + ['\t', ' ', 'a', 'é', '\xa0', '\U0001f600']
+PUMP_UNITS = [
+    # table delimiter rows / rows
+    '|-', '-|', ':-', '-:', ':-:', '|:-:', '-: ', '| ', ' |', '- |', '--|', '|:', '\\|', 'a|', '|a',
+    # links, images, references
+    '](', '[]', '[](', '[a]', '[a](', '](b)', '[a][', '![', '[[', ']]', '[a](b)', '![a](', '[ ', '] ', '(a', '((', '()', '(<',
+    '"a', '("', "('", ' "', 'a|b', '[[a|',
+    # raw HTML, autolinks
+    '<a ', '<a>', '</a>', '</', '<a b=', '<a b="', "<a b='c' ", ' b=c', ' b', '<!--', '<!', '<?', '-->', '--', '<![CDATA[', ']]>',
+    'a:', ':a', ':/', 'http://', '<a:', 'a@', '@a', 'a.', '.a', 'a-', '-a', '<a@b.', 'a.b',
+    # character references
+    '&#', '&#x', '&a', '&amp;', '&#1;', '&;', '#1', 'a;',
+    # code spans, escapes, math, macros, strikethrough
+    '``', '```', '` ', '`a', '`` `', 'a`', '` `', '\\\\', '\\*', '\\`', '\\[', '\\]', '\\a', '\\ ', '$$', '$a', '$a$', '\\$', '$ ',
+    '{{', '{{a', '{{a}}', '}}', '{{/a}}', '{{a ', '~~', '~~a', '~ ', '~~~', 'a~~',
+    # emphasis
+    '*a', '*a ', 'a*', '**a', '_a', '*_', '**', '__', '***', ' *', '* ', '_ ', ' _', 'a_', '_a_', '*a*', '**a**', '*a**', '_*', 'a *', '* a',
+    # containers and leaf-block markers inside one line
+    '> ', '> > ', '>\t', ' >', '>-', '- ', '+ ', '1. ', '1) ', '-\t', '- - ', '- > ', '> - ', '1.', '1)', '10', '  ', ' \t', '\t ',
+    '#a', '# ', ' #', '##', '= ', '=-', '- =', '-=', '_ _', '* * ', '- -', 'a ', ' a', 'é ', '\xa0 ', ' \xa0', ' ', '́']
+PUMP_LINES = [
+    '\n', ' \n', '    \n', '\t\n', '   \n', '>\n', '> \n', '>     \n', '>\t\n', '-\n', '- \n', '-     \n', '- a\n', '1.\n', '1. a\n', 'a\n',
+    'a\\\n', 'a  \n', '\\\n', '  \n', '[a]: b\n', '[a]:\n', '[a]: b "\n', '[a]: <\n', '"\n', '[a]\n', '|a|\n', '|-|\n', '|\n', '-|-\n',
+    '# a\n', '#\n', '=\n', '===\n', 'a\n=\n', 'a\n-\n', '---\n', '* * *\n', '```\n', '~~~\n', '```a\n', '<div>\n', '</div>\n', '<a\n',
+    '</a\n', '<!--\n', '-->\n', '<pre>\n', '<?\n', '*a\n', '*\n', '_\n', 'a*\n', '[a\n', '[\n', ']\n', '](\n', '(\n', '`\n', '`a\n',
+    '``\n', '$\n', '$a\n', '{{a}}\n', '{{a\n', '{{/a}}\n', '~~\n', '~~a\n', '&\n', '<\n', '    a\n', '\ta\n', '  - a\n', '> a\n', '> - a\n',
+    '- > a\n', '>\n\n', '- a\n\n', 'a\n\n', '    a\n\n', '> a\nb\n', '- a\nb\n', 'b=c\n', ' b="\n']
+PUMP_TAILS = ['', 'x', '!', '|', '+', '\n', '+-|']
+# contexts: what stands before the pump.  One line before it (table header, hard break, open fence, paragraph
+# to continue / underline, open HTML block), a container marker, or the opening of an inline construct.
+CTX_LINE = ['', 'a\n', '|a|b|\n', '|a|b|\n|', 'a\\\n', '```\n', '<div>\n', '> a\n', '- a\n', '- a\n\n  ', '[a]: b\n', '    a\n\n']
+CTX_MARK = ['> ', '- ', '1. ', '    ', '# ', '|', 'a ']
+CTX_OPEN = ['[a]: ', '[a]: b "', '[a]: <', '[a](', '[a](b "', '[a](<', '[', '![', '[a][', '[[', '[[a|', '<a ', '<a b="', '<a b=', '</a', '<!--',
+            '<?', '<![CDATA[', '<http://', '<a@', '<a@b.', '`', '``', '*', '**', '_', '~~', '$', '$$', '{{a', '{{a}}', '&', '&#', '&#x', '\\',
+            '<', '<pre>', '~~~', '```']
+
+
+def pumps():
+    """The pump family, deterministic.  Small pumps (n = 30, 100) take every unit x every context x every
+    tail; large pumps (n = 1000 and the largest n with len <= MAX_PUMP) take every unit with the line
+    contexts and the tails '', 'x', '+-|', and the container / inline contexts with the tail 'x'."""
+    units = PUMP_CHARS + PUMP_UNITS + PUMP_LINES
+    out = []
+    for u in units:
+        big = sorted({min(1000, MAX_PUMP // len(u)), MAX_PUMP // len(u)})
+        for n in (30, 100):
+            body = u * n
+            for c in CTX_LINE + CTX_MARK + CTX_OPEN:
+                for t in PUMP_TAILS:
+                    out.append(c + body + t)
+        for n in big:
+            body = u * n
+            for c in CTX_LINE:
+                for t in ('', 'x', '+-|'):
+                    out.append(c + body + t)
+            for c in CTX_MARK + CTX_OPEN:
+                out.append(c + body + 'x')
+    # a pump in front of a closer, and two different pumps in a row (nested quantifiers over two classes)
+    for a, b in (('-', ':'), ('-', ' '), (' ', '-'), ('|', '-'), ('*', '_'), ('[', ']'), ('(', ')'), ('<', '>'), ('`', ' '), (' ', '`'),
+                 ('\\', '|'), ('\\', '`'), ('\\', '\\\\'), (' ', '\t'), ('#', ' '), (' ', '#'), ('=', ' '), ('>', ' '), ('&', ';'), ('$', '\\'),
+                 ('~', 'a'), ('{', '}'), ('"', '\\"'), ("'", ' '), ('(', '\\)'), ('a', ' '), ('\n', ' '), (' \n', '>'), ('>\n', '-\n')):
+        for n in (30, 100, 1000, MAX_PUMP // (2 * max(len(a), len(b)))):
+            for c in ('', '|a|b|\n|', 'a\n', '[a](', '[a]: ', '<a ', '`', '# ', '> ', '- '):
+                for t in ('', 'x', '\n', '+-|'):
+                    out.append(c + a * n + b * n + t)
     return out
+
+
+# ---- whitespace-only lines that look like indented code, as the FIRST line of a block ------------------
+WS_LINES = ['    ', '\t', '     ', '  \t', '    \t ', '        ', '\t\t', ' \t ']
+WS_PRE = [[], ['a'], ['a', ''], ['    code'], ['    code', ''], ['    code', '', ''], ['\tcode', '', '', ''], ['# h'], ['---'], ['```', 'c', '```'],
+          ['<div>', ''], ['<div>'], ['|a|', '|-|'], ['[a]: b'], ['a', '==='], ['- x', ''], ['- x'], ['> x', ''], ['> x'], [''], ['', ''], ['   ']]
+WS_POST = [None, [], ['b'], ['', 'b'], ['    more'], ['', '    more'], ['', '', '\tmore'], ['    '], ['\t', '', 'b'], ['- y'], ['> y'], ['```'], ['===']]
+# (marker of the first line, prefix of the following lines)
+WS_CONTAINERS = [('', ''), ('> ', '> '), ('>', '>'), ('- ', '  '), ('1. ', '   '), ('> > ', '> > '), ('> - ', '>   '), ('- > ', '  > '),
+                 ('- - ', '    '), ('> ', ''), ('- ', '')]
+
+
+def ws_first_lines():
+    """pre-lines, one whitespace-only line of >= 4 columns, post-lines; every line behind the prefix of a
+    container (the last two containers: only the first line carries the marker -- lazy / ended container).
+    post None: the whitespace-only line is the last one and has no line end."""
+    out = []
+    for first, rest in WS_CONTAINERS:
+        for pre in WS_PRE:
+            for w in WS_LINES:
+                for post in WS_POST:
+                    lines = pre + [w] + (post or [])
+                    txt = ''.join((first if i == 0 else rest) + ln + '\n' for i, ln in enumerate(lines))
+                    out.append(txt[:-1] if post is None else txt)
+    return out
+
+
+# ---- documents composed of block specimens (every block construct next to / inside every other) ---------
+def composed():
+    from runtime.mtutil import BLOCKS
+    extra = ['| a | b |\n|---|---|\n| 1 |\n| 1 | 2 | 3 |\n||\n', '| \U0001f600 | é |\n|:-|-:|\n| \U0001f600\U0001f600 | `a\\|b` |', '|a|\n|-|\n|a|\n|a|',
+             '[^1]: note\n\n[^1]', '[a]: /u\n[a]: /v\n[A]: /w\n\n[a] [a] [A]', '*multi\nline* **emphasis\nover** `code\nspan` [link\ntext](u\n"t\nt")',
+             '<span\na="b">x</span\n>', '\\\nx', 'a\\\nb\\\n', '- [ ] task\n- [x] done', '1. a\n1. a\n1. a', '# h\n# h\n# h', '<!---->', '``` \n```', '#\n##\n###',
+             '- \n- \n-', '>\n>\n>', '* a\n+ b\n- c\n1. d\n1) e', '***\n---\n___', '&amp; &#35; &#x22; &nosuch; &#0;', '$a$ $$b$$ \\$c$', '{{a}}\nb\n{{/a}}\n',
+             '[[w]] [[w|t]]', '~~s~~ ~~s\nt~~', 'é́‍\U0001f468‍\U0001f469 ‮ rtl', 'a' * 90 + ' ' + 'b' * 90, ('word ' * 30).strip()]
+    B = BLOCKS + extra
+    out = []
+    for a in B:
+        for b in B:
+            out += [a + '\n' + b, a + '\n\n' + b + '\n']
+    for a in B:
+        ls = a.split('\n')
+        for first, rest in (('> ', '> '), ('> ', ''), ('>', '>'), ('- ', '  '), ('- ', ''), ('1. ', '   '), ('> - ', '>   '), ('- > ', '  > '),
+                            ('- - ', '    '), ('> > ', '> '), ('  - ', '    '), ('-\t', '\t'), ('   ', '   '), ('    ', '    ')):
+            out.append('\n'.join((first if i == 0 else rest) + ln for i, ln in enumerate(ls)))
+            out.append('x\n' + '\n'.join((first if i == 0 else rest) + ln for i, ln in enumerate(ls)) + '\ny')
+        for ch in ('\U0001f600', 'é', '\xa0', '　'):
+            out.append(a.replace('a', ch).replace('foo', ch * 2))
+    return out
+
+
+_FIXED_CACHE = []
+
+
+def fixed_inputs():
+    """(cheap list, pump list): the handcrafted inputs, spec examples, emphasis strings, whitespace-line and
+    composed documents; and the pumps.  Without repetition, in a fixed order."""
+    if not _FIXED_CACHE:
+        seen = set()
+        for src in (nasty() + [e['markdown'] for e in spec_examples()] + emphasis_strings() + ws_first_lines() + composed(), pumps()):
+            lst = []
+            for x in src:
+                if x not in seen:
+                    seen.add(x)
+                    lst.append(x)
+            _FIXED_CACHE.append(lst)
+    return _FIXED_CACHE
 
 
 def bounds(tier):
